@@ -23,7 +23,9 @@ def gen_decls(rng, tree_nss):
         ns = rng.choice(pool)
         if ns in used:
             continue
-        p = rng.choice(["", None, "p", "q", "t", "ns0", "ns1", "ns2", "x", "svg", "xi"])
+        # ordinary prefixes, generated-looking ones, names of the library's common namespaces, and prefixes that merely
+        # start with a reserved one (legal: only `xml` and `xmlns` themselves are reserved)
+        p = rng.choice(["", None, "p", "q", "t", "ns0", "ns1", "ns2", "x", "svg", "xi", "xmldsig", "xmlns2", "xml_", "ns10", "n", "rdf"])
         if p in d or (p is None and "" in d) or (p == "" and None in d):
             continue
         d[p] = ns
